@@ -22,7 +22,8 @@ THEOREMS = [P + t for t in [
     "unsafe_repr_rs_333_433_487", "unsafe_repr_rs_356", "unsafe_repr_rs_191", "unsafe_repr_rs_164_231",
     "unsafe_repr_rs_547", "unsafe_repr_rs_504_519", "unsafe_repr_rs_new_unchecked",
     "bump_slice_inside", "bump_writes_inside", "bump_slices_disjoint",
-    "unsafe_repr_rs_290", "static_clone_correct", "static_clone_from_correct", "static_register_readonly", "unsafe_repr_rs_209", "unsafe_convert_rs_563_695", "unsafe_shift_rs_57", "unsafe_shift_rs_57_needs_nonempty", "unsafe_primitive_rs_66", "unsafe_primitive_rs_66_needs_two", "unsafe_primitive_rs_82", "unsafe_primitive_rs_96", "invariant_says_canonical", "arithmetic_histories_keep_invariant", "skeleton_ops_ok"]]
+    "unsafe_repr_rs_290", "static_clone_correct", "static_clone_from_correct", "static_register_readonly", "unsafe_repr_rs_209", "unsafe_convert_rs_563_695", "unsafe_shift_rs_57", "unsafe_shift_rs_57_needs_nonempty", "unsafe_primitive_rs_66", "unsafe_primitive_rs_66_needs_two", "unsafe_primitive_rs_82", "unsafe_primitive_rs_96", "invariant_says_canonical", "arithmetic_histories_keep_invariant", "skeleton_ops_ok",
+    "unsafe_buffer_rs_438_zeroize", "unsafe_repr_rs_253_zeroize"]]
 
 REFINED = [
     "buffer.rs: allocate_raw(97) deallocate_raw(111) reallocate_raw(148) push(209) push_repeat(235) push_zeros_front(266) "
@@ -35,19 +36,22 @@ REFINED = [
     "never a target), into_sign_typed(209); convert.rs as_ibig/as_ubig(563,695) as identity moves",
     "shift.rs shr_in_place_one_word(57); primitive.rs lowest_dword(66) highest_dword(82) split_hi_word(96): per-block bounds "
     "obligations with and without debug assertions + counterexamples showing the caller-side hypothesis is needed",
-    "storage skeletons of UBig + - * / % << >> in all ownership forms (add_ops.rs/mul_ops.rs/div_ops.rs/shift_ops.rs mod repr): exact "
+    "storage skeletons of UBig + - * / % << >> sqr from_le/be_bytes and IBig + - * (sign glue: into_sign_typed/as_sign_typed, add vs "
+    "sub_signed by sign pair, with_sign) in all ownership forms (add_ops.rs/mul_ops.rs/div_ops.rs/shift_ops.rs/convert.rs): exact "
     "sequence of allocate/into()/ensure_capacity/push*/erase_front/from_buffer/drops, kernels abstracted to one overwrite",
+    "zeroize feature: Buffer::as_full_slice(438)+Zeroize, Repr::as_full_slice(253)+Zeroize — theorem only (harness is built "
+    "without the feature)",
     "capacity policy default_capacity / max_compact_capacity (regenerated from source, Tie A)",
     "memory.rs: try_find_memory_for_slice(165) allocate_slice_initialize(155) and the element writes (86,104,129,135) — "
     "tied by correspondence through the memory_split hook (mem.bump: offsets, lengths, out-of-memory point)"]
 FRONTIER = [
     "NOT modelled: len/is_zero/is_one union reads "
-    "(87,393,407: no memory access outside the struct), as_full_slice (zeroize feature, repr.rs:253, "
-    "buffer.rs:429), unsafe impl Send/Sync (buffer.rs:35,38; repr.rs:62,65), memory.rs MemoryAllocation::new/Drop (38-43,68: "
-    "alloc/dealloc of the scratch block) and Memory's Debug offset_from(27)",
+    "(87,393,407: no memory access outside the struct), "
+    "unsafe impl Send/Sync (buffer.rs:35,38; repr.rs:62,65), memory.rs MemoryAllocation::new/Drop (38-43,68) only as the "
+    "scratch alloc/free events of the mul/div skeletons, Memory's Debug offset_from(27)",
     "NOT modelled: arch/*/add.rs intrinsics, fmt/digit_writer.rs (exercised by Miri histories only)",
-    "arithmetic skeletons: div/rem with a divide-and-conquer scratch block (rhs > 32 words and lhs-rhs > 32 words), div_rem, bit "
-    "operations, gcd, pow, the sqr() method and IBig sign glue are "
+    "arithmetic skeletons: div_rem, bit operations, gcd, pow, to_*_bytes (a Vec<u8>, not a word buffer), parsing/printing and "
+    "IBig / % are "
     "NOT mirrored op by op; they are covered by the general theorem only through their final Repr::from_buffer / from_dword "
     "(any history of Buffer ops followed by from_buffer is canonical) and by the value-level exploration",
     "Rust-level UB that is not a ledger fact (aliasing/provenance, transmute validity, alignment, reads of uninitialised "
@@ -116,12 +120,38 @@ MAXCAP = ((1 << 64) - 1) // 64
 R = 8
 
 
+def _policy_consts():
+    """(divisor, offset) of default_capacity and max_compact_capacity read from the REGENERATED Lean text, so that the
+    steering mirror follows the source (it only steers; the Lean model decides)"""
+    import re
+    try:
+        txt = open(os.path.join(ROOT, "lean", "Dashu", "Gen", "Misc.lean")).read()
+        out = []
+        for name in ("default_capacity", "max_compact_capacity"):
+            m = re.search(r"def %s .*?div_ num_words \((\d+)\)\)\) \((\d+)\)\)" % name, txt, re.S)
+            out.append((int(m.group(1)), int(m.group(2))))
+        return out
+    except Exception:
+        return [(8, 2), (4, 4)]
+
+
 def dc(n):
-    return min(n + n // 8 + 2, MAXCAP)
+    (d, o), _ = _policy_consts_cached()
+    return min(n + n // d + o, MAXCAP)
 
 
 def mc(n):
-    return min(n + n // 4 + 4, MAXCAP)
+    _, (d, o) = _policy_consts_cached()
+    return min(n + n // d + o, MAXCAP)
+
+
+_PC = []
+
+
+def _policy_consts_cached():
+    if not _PC:
+        _PC.append(_policy_consts())
+    return _PC[0]
 
 
 def nontrivial(c):
@@ -135,6 +165,105 @@ def nontrivial(c):
     if c.op == "mem.arith":
         return any(len(a) > 32 for a in c.args[2:])
     return c.op in ("mem.policy", "mem.miri", "mem.bump")
+
+
+# ------------------------------------------------------------------ property-level judge (drift vs violation)
+
+def _tok_view(tok):
+    """projection of one step token onto what the PROPERTY fixes, plus whether the layout invariant holds for it.
+    returns (view, ok): capacities and allocator events are internal choices (dropped from the view) but must
+    satisfy len <= cap (buffers) / the canonical-form clauses (values)."""
+    import re
+    if tok.startswith("!"):
+        return ("panic", tok.split("|")[0]), True
+    body = tok.split("|")[0]
+    if body == "e":
+        return ("e",), True
+    m = re.fullmatch(r"b(\d+)/(\d+)/(.*)", body)
+    if m:
+        ln, cap, ws = int(m.group(1)), int(m.group(2)), m.group(3)
+        return ("b", ln, ws), (ln <= cap and cap > 0 and cap <= MAXCAP)
+    m = re.fullmatch(r"([rs])(-?)(\d+)/(\d+)/(.*)", body)
+    if m:
+        kind, neg, cap, ln, ws = m.group(1), m.group(2) == "-", int(m.group(3)), int(m.group(4)), m.group(5)
+        words = [] if ws == "-" else ws.split(",")
+        ok = len(words) == ln and cap >= 1
+        if ln <= 2:
+            ok = ok and cap <= 2 and (cap == 2) == (ln == 2)
+        else:
+            ok = ok and cap > 2 and ln <= cap <= mc(ln) and cap <= MAXCAP
+        if words:
+            ok = ok and words[-1] != "0"
+        if ln == 0:
+            ok = ok and not neg
+        return (kind, neg, ln, ws), ok
+    return ("?", tok), False
+
+
+def _tail_ok(tok):
+    import re
+    m = re.search(r"live=(\d+):dfree=(\d+)", tok)
+    return bool(m) and m.group(1) == "0" and m.group(2) == "0" and "!" not in tok.split("live=")[1]
+
+
+def judge(c, impl, model):
+    """called by ./check on a disagreement that no finding matches.  "holds" = the implementation's answer differs
+    from the model's only in observables the property does not fix (capacities, allocator event stream, the exact
+    point where an internal `assert!` of the crate-private Buffer API fires, bump-allocator padding) AND the
+    implementation's own answer satisfies every clause of the property on this input: the correspondence has
+    drifted (the model no longer mirrors the code), no failing input."""
+    try:
+        if not impl.startswith("ok ") or not model.startswith("ok "):
+            return None
+        it, mt = impl[3:].split(" "), model[3:].split(" ")
+        if c.op in ("mem.buf", "mem.arith"):
+            if not it or not it[-1].startswith("end:") or not _tail_ok(it[-1]):
+                return None
+            isteps, msteps = it[:-1], mt[:-1]
+            for k, tok in enumerate(isteps):
+                v, ok = _tok_view(tok)
+                if not ok:
+                    return None
+                if v[0] == "panic":
+                    if c.op == "mem.arith" or v[1] != "!assert":
+                        # documented panics of the public API must agree exactly
+                        if k >= len(msteps) or _tok_view(msteps[k])[0] != v:
+                            return None
+                    break
+                if k < len(msteps):
+                    mv, _ = _tok_view(msteps[k])
+                    if mv[0] == "panic":
+                        if mv[1] != "!assert" or c.op == "mem.arith":
+                            return None
+                        # the model's internal assert fired where the code had room: the rest is the code's own
+                        # history; keep checking its invariants only
+                        msteps = []
+                        continue
+                    if mv != v:
+                        return None
+            return "holds"
+        if c.op == "mem.policy":
+            n = int(c.args[0][2:])
+            d, m, mx = (int(x) for x in it)
+            return "holds" if (n <= d <= m <= mx) else None
+        if c.op == "mem.bump":
+            total = int(c.args[0][2:])
+            reqs = [(1 << int(t.split(":")[0]), int(t.split(":")[1])) for t in c.args[1:]]
+            pos = 0
+            for k, tok in enumerate(it):
+                if tok.startswith("rem:") or tok.startswith("nomem@"):
+                    if tok.startswith("nomem@") and not any(t.startswith("nomem@") for t in mt):
+                        return None
+                    break
+                off, ln = (int(x) for x in tok.split(","))
+                size, cnt = reqs[k]
+                if off % size or ln != size * cnt or off < pos or off + ln > total:
+                    return None
+                pos = off + ln
+            return "holds"
+    except Exception:
+        return None
+    return None
 
 
 # ------------------------------------------------------------------ buffer-level histories
@@ -190,7 +319,7 @@ def buf_history(rng, nsteps, fail_p=0.04):
         cur = m.r[k]
         if cur is None:
             c = rng.choice(["alloc", "alloc", "allocx", "fromw", "fromw", "word", "dword", "ones", "bclone", "rclone", "fromw3",
-                            "heapval", "heapval", "roomy", "static", "bview"])
+                            "heapval", "heapval", "roomy", "static", "bview", "tightval"])
             if c == "alloc":
                 n = rng.choice([0, 0, 1, 2, 3, 4, 5, 6, 7, 8, 9, 15, 16, 17, 30, 100, 200])
                 toks.append("alloc:%d:%d" % (k, n)); m.r[k] = ['b', [], dc(n)]
@@ -226,6 +355,12 @@ def buf_history(rng, nsteps, fail_p=0.04):
                 j = rng.choice(js)
                 sw = list(m.r[j][1])
                 toks.append("bview:%d:%d" % (k, j)); m.r[k] = ['b', sw, dc(len(sw))]
+            elif c == "tightval":
+                # a heap value whose capacity equals its length (smallest heap capacity 3 included)
+                n = rng.choice([3, 3, 3, 4, 5, 8])
+                ws = _ws(rng, n, topzero=False)
+                toks.append("allocx:%d:%d" % (k, n)); toks.append("pushs:%d:%s" % (k, _fw(ws))); toks.append("tou:%d" % k)
+                m.r[k] = ['r', ws, n, False]
             elif c == "roomy":
                 # a buffer with much more room than max_compact_capacity(len): from_buffer must shrink it
                 n = rng.choice([20, 40, 100, 200])
@@ -451,6 +586,11 @@ FIXED_BUF = [
     "allocx:0:2 push:0:1 push:0:2 pushr:0:3 tou:0",
     "allocx:0:1 ensurex:0:2 push:0:1 push:0:2",
     "allocx:0:0",
+    # requests beyond MAX_CAPACITY: the documented allocation panic, before any allocator call
+    "alloc:0:%d" % (MAXCAP + 1),
+    "allocx:0:%d" % (MAXCAP + 1),
+    "alloc:0:3 push:0:1 ensure:0:%d" % (MAXCAP + 1),
+    "alloc:0:3 pushs:0:1,2,3 ensure:0:%d drop:0" % (1 << 63),
     # from_buffer: trimmed to 0/1/2 words -> inline + dealloc; >= 3 -> shrink_to_fit
     "fromw:0:0,0,0 tou:0 fromw:1:5,0,0 tou:1 fromw:2:5,6,0,0 tou:2 fromw:3:5,6,7,0,0,0 tou:3",
     "alloc:0:100 push:0:1 push:0:2 push:0:3 tou:0 tob:0 zerosf:0:2 erase:0:1 boxed:0",
@@ -464,6 +604,9 @@ FIXED_BUF = [
     # static-backed values (from_static_words): clone allocates, clone_from from a static, views, forget
     "static:0:1,2,3:0 static:1:5,6,7,8,9:1 static:2:7:1 static:3:-:1 static:4:1,2:0 rclone:5:0 rclonefrom:5:1 "
     "rclonefrom:2:0 asslice:1 bview:6:1 pusht:6:0:1 drop:0 rclonefrom:5:2",
+    # the smallest heap capacity (3): drop, clone_from out of / into it, into_buffer round trip
+    "allocx:0:3 pushs:0:1,2,3 tou:0 drop:0",
+    "allocx:0:3 pushs:0:1,2,3 tou:0 word:1:7 rclonefrom:0:1 allocx:2:3 pushs:2:4,5,6 tou:2 rclone:3:2 rclonefrom:2:3 tob:2 tou:2",
     "static:0:1,0:0",
     "static:0:1,2,0:1",
     "static:0:0:1 fromw:1:1,2,3 tou:1 ist:1 over:1:9,9,9 tou:1 neg:1 ist:1 tou:1",
@@ -510,7 +653,7 @@ def val_history(rng, nsteps, maxbits):
     for _ in range(nsteps):
         k = rng.randrange(R)
         c = rng.choice(["set", "set", "clone", "clonefrom", "clonefrom", "add", "sub", "sub", "mul", "div", "rem", "gcd",
-                        "addm", "subm", "mulm", "adda", "suba", "mula", "selfadd", "selfsub", "selfmul", "selfaddv", "sqr",
+                        "addm", "subm", "mulm", "divm", "remm", "adda", "suba", "mula", "selfadd", "selfsub", "selfmul", "selfaddv", "sqr",
                         "pow", "shl", "shr", "shr", "neg", "abs", "ones", "words", "bytes", "bytesbe", "parts", "take",
                         "swap", "drop", "cancel", "grow", "sclone", "sadd", "smul"])
         x = vals[k]
@@ -583,7 +726,7 @@ def val_history(rng, nsteps, maxbits):
             else:
                 import math
                 vals[k] = math.gcd(xa, xb)
-        elif c in ("addm", "subm", "mulm"):
+        elif c in ("addm", "subm", "mulm", "divm", "remm"):
             a = some()
             if a is None:
                 continue
@@ -593,9 +736,12 @@ def val_history(rng, nsteps, maxbits):
             xa, xb = vals[a], vals[b]
             if c == "mulm" and abs(xa).bit_length() + abs(xb).bit_length() > maxbits:
                 continue
+            if c in ("divm", "remm") and xb == 0:
+                continue
             toks.append("%s:%d:%d:%d" % (c, k, a, b))
             vals[a] = None
-            vals[k] = xa + xb if c == "addm" else (xa - xb if c == "subm" else xa * xb)
+            vals[k] = {"addm": lambda: xa + xb, "subm": lambda: xa - xb, "mulm": lambda: xa * xb,
+                       "divm": lambda: _tdiv(xa, xb), "remm": lambda: xa - xb * _tdiv(xa, xb)}[c]()
         elif c in ("shl", "shr"):
             if x is None:
                 continue
@@ -675,9 +821,29 @@ FIXED_VAL = [
 ]
 
 
+def tight_cases(rng, tier):
+    """values whose buffer is FULL (len == capacity: obtained by clone_from into a reusable buffer of exactly
+    src_len words) consumed by by-value operations that need one more word (carry of +, *, the quotient carry of
+    /, the carry of <<): the growth must go through push_resizing / ensure_capacity, never a bare push"""
+    for l in [3, 4, 5, 6, 8, 9, 12, 16, 17, 24, 33]:
+        c = dc(l)
+        ones = (1 << (64 * c)) - 1
+        base = ["set:0:%s" % hx(nat_pattern(rng, l, "random")), "set:1:%s" % hx(ones), "clonefrom:0:1"]
+        divisors = [3, (1 << 64) - 1, (1 << 64) + 5, (1 << 127) + 1, nat_pattern(rng, 3, "random"),
+                    nat_pattern(rng, max(c - 1, 3), "random"), nat_pattern(rng, c, "random"), (1 << (64 * c - 1))]
+        for d in divisors:
+            for op in ("divm", "remm"):
+                yield Case("mem.val", base + ["set:2:%s" % hx(d), "%s:3:0:2" % op, "drop:3"])
+        for tail in (["set:2:1", "adda:0:2"], ["set:2:1", "addm:3:0:2"], ["set:2:3", "mula:0:2"], ["shl:0:1"], ["shl:0:64"],
+                     ["selfadd:0"], ["set:2:%s" % hx(ones), "adda:0:2"], ["set:2:%s" % hx((1 << 128) - 1), "mulm:3:0:2"],
+                     ["neg:0", "set:2:-1", "adda:0:2"], ["sadd:0:2"], ["smul:0:1"]):
+            yield Case("mem.val", base + tail)
+
+
 def val_cases(rng, tier):
     for h in FIXED_VAL:
         yield Case("mem.val", h.split(" "))
+    yield from tight_cases(rng, tier)
     n = 2500 if tier == "quick" else 120000
     for i in range(n):
         toks = val_history(rng, rng.choice([4, 8, 15, 25, 40]), 6000 if tier == "quick" else 30000)
@@ -703,6 +869,19 @@ def policy_cases(rng, tier):
 MIRI_NOTE = {}
 
 
+def _harness_dir():
+    """the harness manifest directory ./check built from: the shadow manifest of core.cargo_build when the check
+    runs against a scratch copy of /repo (VERIF_REPO), else the harness itself"""
+    from vlib import core
+    import hashlib
+    if core.REPO != "/repo":
+        tag = hashlib.sha1(core.REPO.encode()).hexdigest()[:10]
+        d = os.path.join(core.CACHE, "harness-alt-" + tag)
+        if os.path.isdir(d):
+            return d
+    return HARNESS
+
+
 def _miri_run(tdir, hists, timeout):
     """one Miri invocation over `hists` (list of (kind, toks)); returns per-history verdicts"""
     args = [k + ";" + ";".join(t) for k, t in hists]
@@ -710,7 +889,7 @@ def _miri_run(tdir, hists, timeout):
     env.update({"MIRIFLAGS": "-Zmiri-permissive-provenance", "CARGO_TARGET_DIR": tdir, "RUSTFLAGS": "--cfg dashu_verif"})
     try:
         p = subprocess.run(["cargo", "+nightly", "miri", "run", "--offline", "--bin", "miri_hist", "--"] + args,
-                           cwd=HARNESS, env=env, stdout=subprocess.PIPE, stderr=subprocess.PIPE, text=True, timeout=timeout)
+                           cwd=_harness_dir(), env=env, stdout=subprocess.PIPE, stderr=subprocess.PIPE, text=True, timeout=timeout)
     except subprocess.TimeoutExpired:
         return None, "timeout"
     done = set()
@@ -845,7 +1024,7 @@ def arith_cases(rng, tier):
                     for (x, y) in ((max(a, b), min(a, b)), (a, a), (a, max(a - 1, 0)), (a, max(a - (B - 1), 0)), (min(a, b), max(a, b))):
                         if rng.random() < (0.5 if tier == "quick" else 1.0):
                             yield Case("mem.arith", ["sub", f, hx(x), hx(y)])
-                    if not (lb > 32 and la - lb > 32):     # sizes without the divide-and-conquer scratch block
+                    if True:
                         bb = b if rng.random() < 0.8 or not lb else 1 << (64 * lb - rng.choice([1, 7, 64]))
                         yield Case("mem.arith", ["div", f, hx(a), hx(bb)])
                         yield Case("mem.arith", ["rem", f, hx(a), hx(bb)])
@@ -867,6 +1046,13 @@ def arith_cases(rng, tier):
             yield Case("mem.arith", ["mul", f, hx((1 << (64 * n)) - 1), hx(0)])
             yield Case("mem.arith", ["mul", f, hx(1), hx((1 << (64 * n)) - 1)])
     # scratch block of mul_large / square_large around the simple/Karatsuba/Toom-3 thresholds
+    # divide-and-conquer scratch block of div/rem: rhs > 32 words and lhs - rhs > 32 words
+    dbig = [(66, 33), (65, 33), (70, 33), (100, 40), (140, 70), (200, 100)] + ([(300, 150), (600, 300), (700, 34)] if tier == "thorough" else [])
+    for (la, lb) in dbig:
+        for f in forms:
+            a, b = operand(la, "random"), operand(lb, rng.choice(["random", "highbit"]))
+            yield Case("mem.arith", ["div", f, hx(a), hx(b)])
+            yield Case("mem.arith", ["rem", f, hx(a), hx(b)])
     big = [(24, 24), (24, 25), (25, 25), (25, 40), (30, 30), (31, 31), (30, 100), (100, 100)]
     if tier == "thorough":
         big += [(192, 192), (192, 193), (193, 193), (200, 300), (192, 500), (400, 400)]
@@ -876,6 +1062,33 @@ def arith_cases(rng, tier):
             yield Case("mem.arith", ["mul", f, hx(a), hx(b)])
             yield Case("mem.arith", ["mul", f, hx(b), hx(a)])
             yield Case("mem.arith", ["mul", f, hx(a), hx(a)])
+    # UBig::sqr(&self) incl. the scratch block above sqr::MAX_LEN_SIMPLE
+    for la in [0, 1, 2, 2, 3, 4, 5, 9, 24, 25, 30, 31, 40] + ([100, 192, 193, 250] if tier == "thorough" else [100]):
+        for _ in range(reps):
+            yield Case("mem.arith", ["sqr", "r", hx(operand(la, rng.choice(["random", "ones", "zero"]))), "0"])
+    # IBig + - * : sign glue (into_sign_typed / as_sign_typed, add or sub_signed by sign pair, with_sign)
+    slens = [0, 1, 2, 3, 4, 5, 9, 17] if tier == "quick" else lens
+    for la in slens:
+        for lb in slens:
+            for f in forms:
+                for op in ("iadd", "isub", "imul"):
+                    sa, sb = rng.choice([1, -1]), rng.choice([1, -1])
+                    a, b = operand(la, rng.choice(["random", "ones"])), operand(lb, rng.choice(["random", "one"]))
+                    r = rng.random()
+                    if r < 0.2:
+                        b = a
+                    elif r < 0.35 and a:
+                        b = a - rng.choice([1, (1 << 64) - 1])
+                    if op == "imul" and la + lb > 70:
+                        continue
+                    yield Case("mem.arith", [op, f, hx(sa * a), hx(sb * abs(b))])
+    # UBig::from_le_bytes / from_be_bytes: byte lengths around the 2-word fast path and word boundaries,
+    # values filling all / fewer words than the byte length (high zero bytes -> high zero words)
+    for nb in [0, 1, 7, 8, 9, 15, 16, 17, 23, 24, 25, 31, 32, 33, 40, 64, 65, 100, 257, 800]:
+        for f in ("le", "be"):
+            for bits in sorted(x for x in {0, 1, 8 * nb, max(8 * nb - 7, 0), max(8 * nb - 64, 0), max(8 * nb - 130, 0)} if x <= 8 * nb):
+                v = rng.getrandbits(bits) if bits else 0
+                yield Case("mem.arith", ["frombytes", f, hx(v), "d:%d" % nb])
     for la in lens:
         for _ in range(reps):
             a = operand(la, rng.choice(["ones", "random", "one", "pow2", "highbit"]))
